@@ -167,6 +167,14 @@ let c17_judge c obs =
 
 (* ---------------- C18 ---------------- *)
 let ssource = function SQuery -> "query" | SForm -> "form" | SMultipart -> "multipart" | SJson -> "json" | SXml -> "xml" | SError -> "err"
+(* inputs that are not well-formed documents of their format (or carry a value of the wrong type): binding must fail *)
+let c18_malformed = [
+  ("json", "{"); ("json", "[1,2"); ("json", "{\"id\":\"x\"}"); ("json", "{\"tags\":5}"); ("json", "{\"id\":1,}"); ("json", "{'id':1}");
+  ("json", "<val><id>x</id>"); ("json", "id=abc&ok=maybe"); ("json", "%zz"); ("json", "<a></b>");
+  ("xml", "<val><id>x</id>"); ("xml", "<a></b>"); ("xml", "<val><id>1</id></vals>"); ("xml", "<val a=b><id>1</id></val>");
+  ("xml", "<val><name>&nbsp;</name></val>"); ("xml", "<val><name>a & b</name></val>"); ("xml", "<val><id>1</ID></val>");
+  ("xml", "<val><id>1</id><name>x</val></name>"); ("xml", "<val checked><id>1</id></val>"); ("xml", "{"); ("xml", "[1,2");
+  ("form", "id=abc&ok=maybe"); ("query", "id=abc&ok=maybe") ]
 let c18_model = function
   | L [A "src"; m; ct] -> L [A "src"; A (ssource (auto_source (str m) (str ct)))]
   | L (A _ :: _) -> L [A "judge-only"]
@@ -183,7 +191,10 @@ let c18_judge c obs =
     else if exp = "err" && got <> "err" then "bad substring-content-type-dispatch media-type=" ^ atom_of_str mt ^ " bound-as=" ^ got
     else "bad wrong-source expected=" ^ exp ^ " got=" ^ got
   | L (A "rt" :: A f :: _), L [A "rt"; A r] -> if r = "ok" then "ok" else "bad roundtrip-" ^ r ^ " format=" ^ f
-  | L (A "mal" :: _), L [A "mal"; A r] -> if r = "panic" then "bad malformed-input-panics" else "ok"
+  | L [A "mal"; A f; body], L [A "mal"; A r] ->
+    if r = "panic" then "bad malformed-input-panics"
+    else if r = "ok" && List.mem (f, ascii_of (str body)) c18_malformed then "bad malformed-input-accepted format=" ^ f ^ " body=" ^ ascii_of (str body)
+    else "ok"
   | L [A "val"; A en; A valid; A f], L [A "val"; A r] ->
     if r = "panic" then "bad validation-panics"
     else if en = "t" && valid = "f" && r = "ok" then "bad bind-succeeds-on-invalid-struct format=" ^ f
